@@ -819,14 +819,19 @@ impl Indexable for ast::InnerValue {
 
 /// number of bits selected by a range list; `None` if a piece is malformed
 fn bit_count(range_list: &ast::RangeList) -> Option<usize> {
-    let mut count = 0;
+    let mut count: usize = 0;
     for piece in range_list.pieces() {
         let start = piece.start()?.value()?;
-        count += match piece.end() {
+        let width = match piece.end() {
             // `3-0` is lexed as `3` `-0`: the sign of the end belongs to the separator
-            Some(end) => (start - end.value()?.abs()).unsigned_abs() as usize + 1,
+            // (the positions are arbitrary 64-bit integers: nothing here may overflow)
+            Some(end) => {
+                let distance = start.abs_diff(end.value()?.checked_abs()?);
+                usize::try_from(distance).ok()?.checked_add(1)?
+            }
             None => 1,
         };
+        count = count.checked_add(width)?;
     }
     Some(count)
 }
